@@ -240,6 +240,19 @@ func field(obj any, name string) reflect.Value {
 	return reflect.NewAt(f.Type(), unsafe.Pointer(f.UnsafeAddr())).Elem()
 }
 
+// fieldOpt is field for a field that only some trees have.
+func fieldOpt(obj any, name string) (reflect.Value, bool) {
+	v := reflect.ValueOf(obj)
+	for v.Kind() == reflect.Ptr || v.Kind() == reflect.Interface {
+		v = v.Elem()
+	}
+	f := v.FieldByName(name)
+	if !f.IsValid() {
+		return reflect.Value{}, false
+	}
+	return reflect.NewAt(f.Type(), unsafe.Pointer(f.UnsafeAddr())).Elem(), true
+}
+
 // mapLen reads len(obj.<mapField>) under obj.<muField> (a sync.RWMutex).
 func mapLen(obj any, mapField, muField string) int {
 	mu := field(obj, muField).Addr().Interface().(*sync.RWMutex)
